@@ -16,26 +16,8 @@ pub enum Got {
     Pair(u64, u64),
     Key(u64),
     Val(u64),
-}
-
-fn plan_calls(calls: &[bool], rest: Rest, len: usize) -> Vec<bool> {
-    let mut out: Vec<bool> = calls.to_vec();
-    match rest {
-        Rest::Stop => { },
-        Rest::Front | Rest::Back | Rest::Alternate => {
-            // continue to exhaustion and two calls beyond
-            let done = out.len();
-            let remaining = len.saturating_sub(done.min(len)) + 2;
-            for i in 0..remaining {
-                out.push(match rest {
-                    Rest::Front => false,
-                    Rest::Back => true,
-                    _ => i % 2 == 1,
-                });
-            }
-        },
-    }
-    out
+    Hint(usize, Option<usize>),
+    Count(usize),
 }
 
 impl World {
@@ -165,35 +147,24 @@ impl World {
 
     // ------------------------------------------------------------- walks
 
-    pub fn do_iterwalk(&mut self, kind: IterKind, calls: &[bool], rest: Rest, fate: Fate) {
+    pub fn do_iterwalk(&mut self, kind: IterKind, calls: &[Call], rest: Rest, fate: Fate) {
         let pre = self.pre();
         self.pending_inject = None;
         let order: Vec<Ent> = self.side().model.order.clone();
         let len = order.len();
-        let plan = plan_calls(calls, rest, len);
-        self.log(format!("iterwalk {} calls={} fate={:?} over len {}", kind.name(),
-            plan.iter().map(|&b| if b { 'b' } else { 'f' }).collect::<String>(), fate, len));
+        let plan = plan_walk(calls, rest, len);
+        // a finishing consumer takes the iterator by value: nothing is left to forget
+        let fate = if plan.fin.finishing() { Fate::Drop } else { fate };
+        let plan_txt = format!("{}{}", calls_text(&plan.calls), if plan.fin.finishing() { format!("+{}", plan.fin.to_text()) } else { String::new() });
+        self.log(format!("iterwalk {} calls={} fate={:?} over len {}", kind.name(), plan_txt, fate, len));
 
         // expected results
-        let mut exp: Vec<Option<usize>> = Vec::with_capacity(plan.len());
-        let (mut i, mut j) = (0usize, 0usize);
-        for &back in &plan {
-            if i + j >= len {
-                exp.push(None);
-            }
-            else if back {
-                exp.push(Some(len - 1 - j));
-                j += 1;
-            }
-            else {
-                exp.push(Some(i));
-                i += 1;
-            }
-        }
-        let yielded: BTreeSet<usize> = exp.iter().flatten().copied().collect();
-        let exhausted_at = exp.iter().position(|e| e.is_none());
+        let exp = expect_walk(&plan, len);
+        let yielded: BTreeSet<usize> = exp.yielded.clone();
+        let exhausted_at = exp.exhausted_at;
 
-        let mut got: Vec<Got> = Vec::with_capacity(plan.len());
+        let mut got: Vec<Got> = Vec::with_capacity(plan.calls.len());
+        let mut fin_got: Vec<Got> = Vec::new();
         let mut taken_k: Vec<TKey> = Vec::new();
         let mut taken_v: Vec<TVal> = Vec::new();
         let forget = fate == Fate::Forget;
@@ -201,9 +172,21 @@ impl World {
         let run;
         {
             let got_ref = &mut got;
+            let fin_ref = &mut fin_got;
             let tk = &mut taken_k;
             let tv = &mut taken_v;
             let plan_ref = &plan;
+            macro_rules! sink {
+                ($conv:expr) => {
+                    |o| match o {
+                        WalkOut::Item(None) => got_ref.push(Got::None),
+                        WalkOut::Item(Some(x)) => { let g = $conv(x); got_ref.push(g); },
+                        WalkOut::Hint(lo, hi) => got_ref.push(Got::Hint(lo, hi)),
+                        WalkOut::Fin(x) => { let g = $conv(x); fin_ref.push(g); },
+                        WalkOut::Count(n) => fin_ref.push(Got::Count(n)),
+                    }
+                };
+            }
             if kind.consuming() {
                 // the cache is consumed; a fresh one takes its place afterwards
                 let cache = self.sides[a].cache.take().unwrap();
@@ -213,68 +196,24 @@ impl World {
                 drop(old.cache);
                 run = self.run(&[], move |_unused| {
                     match kind {
-                        IterKind::IntoIter => {
-                            let mut it = cache.into_iter();
-                            for &b in plan_ref {
-                                let r = if b { it.next_back() } else { it.next() };
-                                got_ref.push(match r { None => Got::None, Some((k, v)) => { let g = Got::Pair(k.id, v.id); tk.push(k); tv.push(v); g } });
-                            }
-                            if forget { std::mem::forget(it); }
-                        },
-                        IterKind::IntoKeys => {
-                            let mut it = cache.into_keys();
-                            for &b in plan_ref {
-                                let r = if b { it.next_back() } else { it.next() };
-                                got_ref.push(match r { None => Got::None, Some(k) => { let g = Got::Key(k.id); tk.push(k); g } });
-                            }
-                            if forget { std::mem::forget(it); }
-                        },
-                        _ => {
-                            let mut it = cache.into_values();
-                            for &b in plan_ref {
-                                let r = if b { it.next_back() } else { it.next() };
-                                got_ref.push(match r { None => Got::None, Some(v) => { let g = Got::Val(v.id); tv.push(v); g } });
-                            }
-                            if forget { std::mem::forget(it); }
-                        },
+                        IterKind::IntoIter => drive_walk(cache.into_iter(), plan_ref, forget,
+                            sink!(|(k, v): (TKey, TVal)| { let g = Got::Pair(k.id, v.id); tk.push(k); tv.push(v); g })),
+                        IterKind::IntoKeys => drive_walk(cache.into_keys(), plan_ref, forget,
+                            sink!(|k: TKey| { let g = Got::Key(k.id); tk.push(k); g })),
+                        _ => drive_walk(cache.into_values(), plan_ref, forget,
+                            sink!(|v: TVal| { let g = Got::Val(v.id); tv.push(v); g })),
                     }
                 });
             }
             else {
                 run = self.run(&[], move |c| {
                     match kind {
-                        IterKind::Iter => {
-                            let mut it = c.iter();
-                            for &b in plan_ref {
-                                let r = if b { it.next_back() } else { it.next() };
-                                got_ref.push(r.map(|(k, v)| Got::Pair(k.id, v.id)).unwrap_or(Got::None));
-                            }
-                            if forget { std::mem::forget(it); }
-                        },
-                        IterKind::Keys => {
-                            let mut it = c.keys();
-                            for &b in plan_ref {
-                                let r = if b { it.next_back() } else { it.next() };
-                                got_ref.push(r.map(|k| Got::Key(k.id)).unwrap_or(Got::None));
-                            }
-                            if forget { std::mem::forget(it); }
-                        },
-                        IterKind::Values => {
-                            let mut it = c.values();
-                            for &b in plan_ref {
-                                let r = if b { it.next_back() } else { it.next() };
-                                got_ref.push(r.map(|v| Got::Val(v.id)).unwrap_or(Got::None));
-                            }
-                            if forget { std::mem::forget(it); }
-                        },
-                        _ => {
-                            let mut it = c.drain();
-                            for &b in plan_ref {
-                                let r = if b { it.next_back() } else { it.next() };
-                                got_ref.push(match r { None => Got::None, Some((k, v)) => { let g = Got::Pair(k.id, v.id); tk.push(k); tv.push(v); g } });
-                            }
-                            if forget { std::mem::forget(it); }
-                        },
+                        IterKind::Iter => drive_walk(c.iter(), plan_ref, forget,
+                            sink!(|(k, v): (&TKey, &TVal)| Got::Pair(k.id, v.id))),
+                        IterKind::Keys => drive_walk(c.keys(), plan_ref, forget, sink!(|k: &TKey| Got::Key(k.id))),
+                        IterKind::Values => drive_walk(c.values(), plan_ref, forget, sink!(|v: &TVal| Got::Val(v.id))),
+                        _ => drive_walk(c.drain(), plan_ref, forget,
+                            sink!(|(k, v): (TKey, TVal)| { let g = Got::Pair(k.id, v.id); tk.push(k); tv.push(v); g })),
                     }
                 });
             }
@@ -287,41 +226,77 @@ impl World {
         }
 
         // ---- C12: the sequence of results
-        let tags12: Vec<&'static str> = if forget { vec!["C12", "C17"] } else { vec!["C12"] };
-        for (n, (&e, &g)) in exp.iter().zip(got.iter()).enumerate() {
-            let want = match (e, kind) {
-                (None, _) => Got::None,
-                (Some(p), IterKind::Iter | IterKind::Drain | IterKind::IntoIter) => Got::Pair(order[p].key_id, order[p].val_id),
-                (Some(p), IterKind::Keys | IterKind::IntoKeys) => Got::Key(order[p].key_id),
-                (Some(p), _) => Got::Val(order[p].val_id),
-            };
+        let mut tags12: Vec<&'static str> = if forget { vec!["C12", "C17"] } else { vec!["C12"] };
+        if kind.borrowing() {
+            // "the order reported by iteration": a borrowing iterator that answers
+            // with the wrong entry misreports the recency order
+            tags12.push("C05");
+        }
+        let want_of = |p: usize| match kind {
+            IterKind::Iter | IterKind::Drain | IterKind::IntoIter => Got::Pair(order[p].key_id, order[p].val_id),
+            IterKind::Keys | IterKind::IntoKeys => Got::Key(order[p].key_id),
+            _ => Got::Val(order[p].val_id),
+        };
+        let mut results_ok = true;
+        for (n, (&e, &g)) in exp.per_call.iter().zip(got.iter()).enumerate() {
             let after_exhaustion = exhausted_at.map(|x| n > x).unwrap_or(false);
             if after_exhaustion && !kind.fused() {
                 // calls after the first None on a non-fused iterator only
                 // have to be memory-safe
                 continue;
             }
+            if let Got::Hint(lo, hi) = g {
+                let (f, b) = exp.before[n];
+                let rem = len - f - b;
+                if lo > rem || hi.map(|h| h < rem).unwrap_or(false) {
+                    // outside the listed property (the statement is about what
+                    // next / next_back yield): counted, not judged
+                    self.stats.ev("walk.size_hint-does-not-bracket");
+                }
+                continue;
+            }
+            let want = e.map(want_of).unwrap_or(Got::None);
             if g != want {
+                results_ok = false;
                 self.fail(tags12.clone(), format!("walk:{}", kind.name()),
                     format!("{} call #{} ({}) returned {:?}, expected {:?} (len {}, calls {})", kind.name(), n + 1,
-                        if plan[n] { "next_back" } else { "next" }, g, want, len,
-                        plan.iter().map(|&b| if b { 'b' } else { 'f' }).collect::<String>()));
+                        plan.calls[n].letter(), g, want, len, plan_txt));
                 break;
             }
         }
+        if got.len() != exp.per_call.len() && results_ok {
+            results_ok = false;
+            self.fail(tags12.clone(), format!("walk:{}", kind.name()),
+                format!("{} answered {} of {} calls", kind.name(), got.len(), exp.per_call.len()));
+        }
+        if plan.fin.finishing() && results_ok && (exhausted_at.is_none() || kind.fused()) {
+            let want: Vec<Got> = match exp.fin_count {
+                Some(n) => vec![Got::Count(n)],
+                None => exp.fin_items.iter().map(|&p| want_of(p)).collect(),
+            };
+            if fin_got != want {
+                self.fail(tags12.clone(), format!("walk-fin:{}:{}", kind.name(), plan.fin.to_text().trim_end_matches(char::is_numeric)),
+                    format!("{} after calls {}: {} handed out {:?}, expected {:?} (len {})", kind.name(),
+                        calls_text(&plan.calls), plan.fin.to_text(), fin_got, want, len));
+            }
+        }
         if self.want("C12") && len >= 2 {
-            let mixes = plan.iter().any(|&b| b) && plan.iter().any(|&b| !b);
-            let past = exhausted_at.map(|x| x + 1 < plan.len()).unwrap_or(false);
+            let mixes = plan.calls.iter().any(|c| c.back()) && plan.calls.iter().any(|c| !c.back());
+            let past = exhausted_at.map(|x| x + 1 < plan.calls.len()).unwrap_or(false);
             if mixes && past && fate == Fate::Drop {
                 self.nontrivial("C12", format!("{}|{}|{}", kind.name(), len.min(8),
-                    plan.iter().take(12).map(|&b| if b { 'b' } else { 'f' }).collect::<String>()));
+                    plan.calls.iter().take(12).map(|c| c.letter()).collect::<String>()));
+            }
+            if plan.calls.iter().any(|c| c.positional()) || plan.fin.finishing() {
+                self.nontrivial("C12", format!("{}|{}|{}|{}", kind.name(), len.min(8),
+                    plan.calls.iter().take(6).map(|c| c.letter()).collect::<String>(), plan.fin.to_text()));
             }
         }
         if self.want("C17") && forget && len >= 2 && !yielded.is_empty() {
             self.nontrivial("C17", format!("{}|{}|{}", kind.name(), len.min(8), yielded.len().min(8)));
         }
         if self.want("C06") && kind != IterKind::Iter && !kind.borrowing() && fate == Fate::Drop && yielded.len() < len {
-            let cls = if yielded.is_empty() { "none" } else if plan.iter().all(|&b| b) { "back" } else if plan.iter().all(|&b| !b) { "front" } else { "mixed" };
+            let cls = if yielded.is_empty() { "none" } else if plan.calls.iter().all(|c| c.back()) { "back" } else if plan.calls.iter().all(|c| !c.back()) { "front" } else { "mixed" };
             self.nontrivial("C06", format!("partial|{}|{}", kind.name(), cls));
         }
 
@@ -335,7 +310,7 @@ impl World {
         if kind.borrowing() {
             let info = Info { name: "iterwalk", unchanged: vec!["C19", "C12"], zero_hash: true, ..Info::default() };
             if len >= 2 {
-                self.nontrivial("C19", format!("walk|{}|{}", kind.name(), if plan.iter().any(|&b| b) { "back" } else { "front" }));
+                self.nontrivial("C19", format!("walk|{}|{}", kind.name(), if plan.calls.iter().any(|c| c.back()) { "back" } else { "front" }));
             }
             self.after_op(&pre, &info, run.builds, Level::Full);
             return;
@@ -478,7 +453,7 @@ impl World {
                     Err(e) => self.fail(vec!["C16", "C14", "C07"], "clone_from-panic-structure".into(),
                         format!("after a panic inside clone_from the target's structure is broken: {}", e)),
                     Ok(st) => {
-                        let sum: usize = st.sizes.iter().sum();
+                        let sum: usize = st.sizes.iter().fold(0usize, |a, &x| a.saturating_add(x));
                         let (cur, len) = (t.current_size(), t.len());
                         ck!(self, sum == cur && len == st.sizes.len(), ["C16", "C14", "C02"], "clone_from-panic-accounting",
                             "after a panic inside clone_from the target reports current_size {} / len {} but holds {} entries whose recorded sizes sum to {}",
